@@ -7,8 +7,9 @@ that the assembled Newton systems and every extracted result are equal for all p
 import copy
 import random
 
-from svx import harness as H, nets, catalog, stubs, runner, equiv
-from svx.common import concrete_pipeflow
+from svx import harness as H, nets, catalog, stubs, runner, equiv, discharge as D
+from svx.common import concrete_pipeflow, finish_worker
+import numpy as np
 
 PROP = "C06"
 POOL = [0, 1, 2, 3, 7, 42, 99999, 100000, 250000, 11, 5]
@@ -39,10 +40,23 @@ ELEM_TABLE = {"ext_grid": "ext_grid", "sink": "sink", "source": "source", "mass_
               "flow_control": "flow_control", "heat_exchanger": "heat_exchanger", "heat_consumer": "heat_consumer"}
 
 
+def _stable_hash(name):
+    import zlib
+    return zlib.crc32(name.encode()) % 1000
+
+
 def with_explicit_indices(spec):
     """A-side: explicit labels 0..n-1 per table in creation order"""
     s = copy.deepcopy(spec)
     cnt = {}
+    qs = 1.0 if s.get("fluid", "water") == "water" else 0.08
+    for k, e in enumerate(s["elems"]):
+        # defaults that nets.build derives from the position in the element list are made explicit, so that a
+        # description with another creation order carries the same numbers
+        if e["t"] == "pipe":
+            e.setdefault("length_km", 0.4 + 0.1 * k)
+        elif e["t"] in ("sink", "source"):
+            e.setdefault("mdot", (0.3 + 0.1 * k) * qs)
     for e in s["elems"]:
         t = e["t"]
         if "index" not in e:
@@ -120,12 +134,19 @@ def jobs(tier, seed):
                 mode = "sequential" if s["name"].startswith(("w_circ", "w_heat")) else "hydraulics"
                 out.append({"name": "%s/v%d/%s" % (s["name"], v, "numba" if numba else "numpy"), "spec": s, "variant": v,
                             "numba": numba, "pfmode": mode, "vseed": 100 * seed + v})
+        if any(int(e.get("sections", 1)) > 1 for e in s["elems"] if e["t"] == "pipe"):
+            for v in range(nvar):
+                mode = "sequential" if s["name"].startswith(("w_circ", "w_heat")) else "hydraulics"
+                out.append({"name": "%s/internals/v%d" % (s["name"], v), "kind": "internals", "spec": s, "variant": v, "numba": False,
+                            "pfmode": mode, "vseed": 100 * seed + v})
     return out
 
 
 def worker(job):
+    if job.get("kind") == "internals":
+        return internals_worker(job)
     H.install(numba_pyfunc=bool(job["numba"]))
-    rng = random.Random(job["vseed"] * 7919 + hash(job["spec"]["name"]) % 1000)
+    rng = random.Random(job["vseed"] * 7919 + _stable_hash(job["spec"]["name"]))
     v = job["variant"]
     a, b, ident, fwd = relabel(job["spec"], rng, labels=(v % 2 == 0) or v >= 2, order=True, rows=(v % 2 == 1) or v >= 2,
                                 cyclic=(v == 0))
@@ -137,7 +158,61 @@ def worker(job):
                                             "identB": {t: {str(k): v_ for k, v_ in m.items()} for t, m in ident.items()}})
 
 
+def internals_worker(job):
+    """evaluated part (no solver): Pipe.get_internal_results - the per-section view of the results - of corresponding
+    multi-section pipes agrees between the base description and the relabelled one (float runs of the real code)"""
+    violated, detail = _internals_compare(job["spec"], job["variant"], job["vseed"], bool(job["numba"]), job["pfmode"])
+    viol = []
+    if violated:
+        viol.append({"fingerprint": "C06/internal_results", "detail": dict(detail, job=job["name"]),
+                     "replay": {"kind": "internals", "spec": job["spec"], "variant": job["variant"], "vseed": job["vseed"],
+                                "numba": job["numba"], "pfmode": job["pfmode"], "values": {}}})
+    D.STATS.obligations += 1
+    D.STATS.rewriter += 0 if violated else 1
+    return finish_worker(job, H.Exploration(), viol, evaluated=1)
+
+
+def _internals_compare(spec, v, vseed, numba, mode):
+    from pandapipes.component_models.pipe_component import Pipe
+    rng = random.Random(vseed * 7919 + _stable_hash(spec["name"]))
+    a, b, ident, fwd = relabel(spec, rng, labels=True, order=True, rows=(v % 2 == 1), cyclic=(v == 0))
+    out = []
+    for sp, idm in ((a, None), (b, ident)):
+        net, _ = nets.build(sp, nets.concrete_valuer({}), ident=idm)
+        ok, err = concrete_pipeflow(net, use_numba=numba, mode=mode, tol_p=1e-9, tol_m=1e-9, tol_res=1e-9, max_iter_hyd=200,
+                                    max_iter_therm=200)
+        if not ok:
+            return False, {"skipped": err}
+        out.append(net)
+    na, nb = out
+    bad = []
+    for la in na.pipe.index:
+        if int(na.pipe.at[la, "sections"]) < 2:
+            continue
+        lb = fwd.get("pipe", {}).get(la, la)
+        res = []
+        for net, lab in ((na, la), (nb, lb)):
+            try:
+                r = Pipe.get_internal_results(net, np.array([lab]))
+                res.append({k: np.asarray(val)[:, 1].tolist() for k, val in r.items()})
+            except Exception as e:   # noqa
+                res.append({"raised": repr(e)[:120]})
+        ra, rb = res
+        if "raised" in ra or "raised" in rb:
+            if ("raised" in ra) != ("raised" in rb):
+                bad.append("pipe %s / %s: %s vs %s" % (la, lb, ra.get("raised", "values"), rb.get("raised", "values")))
+            continue
+        for k in ra:
+            x, y = np.asarray(ra[k], dtype=float), np.asarray(rb[k], dtype=float)
+            if x.shape != y.shape or (x.size and np.nanmax(np.abs(x - y) / (1 + np.abs(x))) > 1e-6):
+                bad.append("pipe %s / %s: %s %s vs %s" % (la, lb, k, x.tolist(), y.tolist()))
+                break
+    return bool(bad), {"bad": bad[:3]}
+
+
 def replay(rs):
+    if rs.get("kind") == "internals":
+        return _internals_compare(rs["spec"], rs["variant"], rs["vseed"], bool(rs.get("numba")), rs.get("pfmode") or "hydraulics")
     a, b = rs["spec"], rs["specB"]
     fwd = {t: {int(k): v for k, v in m.items()} for t, m in rs["fwd"].items()}
     ident = {t: {int(k): v for k, v in m.items()} for t, m in rs["identB"].items()}
